@@ -174,8 +174,19 @@ func (r *BaseOperationRepo) getDeletedOperations() (map[string]*types.Operation,
 	return operations, nil
 }
 
+// initJsonKey initialises the key with an empty JSON object unless the state
+// already holds a value for it: a node restarted on its existing state must
+// keep its pending and retired operations.
 func (r *BaseOperationRepo) initJsonKey(key string) error {
-	err := r.state.Set(key, []byte("{}"))
+	bz, err := r.state.Get(key)
+	if err != nil {
+		return fmt.Errorf("failed to read state: %w", err)
+	}
+	if len(bz) > 0 {
+		return nil
+	}
+
+	err = r.state.Set(key, []byte("{}"))
 	if err != nil {
 		return fmt.Errorf("failed to init state: %w", err)
 	}
